@@ -40,12 +40,13 @@ Theorem C24_global_source_is_schedule_dependent :
 Proof. exact select_global_schedule_dependent. Qed.
 Print Assumptions C24_global_source_is_schedule_dependent.
 
-(* The producer ordering (votes descending, ties by node public key) does not
-   depend on the order in which the producers come out of the activity map. *)
+(* The producer ordering (producers with votes; votes descending, ties by node
+   public key) does not depend on the order in which the producers come out of
+   the activity map. *)
 Theorem C24_producer_order_independent_of_insertion :
   forall l l' : list (Z * Z), Permutation l l' -> NoDup (map snd l) ->
-    sort_producers l = sort_producers l'.
-Proof. exact sort_insertion_independent. Qed.
+    sorted_voted l = sorted_voted l'.
+Proof. exact sorted_voted_insertion_independent. Qed.
 Print Assumptions C24_producer_order_independent_of_insertion.
 
 (* Non-vacuity: the anchors (getCandidateIndexAtRandom,
@@ -60,6 +61,6 @@ Example C24_static_nonvacuous :
 Proof. exact static_nonvacuous. Qed.
 
 Example C24_sort_example :
-  sort_producers [(5, 3); (7, 9); (5, 1)]%Z = [(7, 9); (5, 1); (5, 3)]%Z
+  sorted_voted [(5, 3); (7, 9); (0, 4); (5, 1)]%Z = [(7, 9); (5, 1); (5, 3)]%Z
   /\ select (fun s n => s mod n)%Z (Some [1;0;0;0;0;0;0;128]%Z) 30 0 24 72 = Idx ((1 - 2^63) mod 7)%Z.
 Proof. vm_compute. split; reflexivity. Qed.
